@@ -159,7 +159,9 @@ func ifaceKeyed(v interface{}) interface{} {
 func H_C09_newfrom() {
 	sin, opts := c09Inputs()
 	var in interface{} = sin
-	if verif.Choice("interface-keyed maps", 2) == 1 {
+	// (quick: the generated family - recognisable by its single top-level key prefix - stays string-keyed)
+	_, generated := sin["a.b.x"]
+	if (verif.Tier() > 0 || !generated) && verif.Choice("interface-keyed maps", 2) == 1 {
 		in = ifaceKeyed(sin)
 	}
 	run := func() outcome {
@@ -215,7 +217,10 @@ type c09Target struct {
 
 // H_C09_unpack: unpacking a config whose settings reference each other, into a map and a struct.
 func H_C09_unpack() {
-	targets := []string{"a", "b", "c", "zz"}
+	targets := []string{"a", "b", "zz"}
+	if verif.Tier() > 0 {
+		targets = []string{"a", "b", "c", "zz"}
+	}
 	g := refGraph{}
 	g["a"] = genRefExpr("a", targets, "va")
 	g["b"] = genRefExpr("b", targets, "vb")
